@@ -207,7 +207,12 @@ func (e *Enc) applyContract(f *frame, con *Contract, display string, args []Val,
 	res := sig.Results()
 	names := e.resultNames(con, sig, fn)
 	for i := 0; i < res.Len(); i++ {
-		v := e.freshVal(res.At(i).Type(), "r_"+names[i])
+		var v Val
+		if con.Function {
+			v = e.funcResult(con, display, i, res.At(i).Type(), args, sig, fn)
+		} else {
+			v = e.freshVal(res.At(i).Type(), "r_"+names[i])
+		}
 		e.assumeLoaded(res.At(i).Type(), v)
 		rs = append(rs, v)
 		env.names[names[i]] = TV{V: v, Ty: res.At(i).Type()}
@@ -216,7 +221,18 @@ func (e *Enc) applyContract(f *frame, con *Contract, display string, args []Val,
 	env.old = old
 	e.evalLets(env, con)
 	for _, c := range con.Ensures {
-		e.assume(e.evalBool(env, c))
+		if e.skipAssume[display+"/"+strings.TrimSuffix(c.Label, "!")] {
+			continue // this check does not need the clause (fewer assumptions is sound)
+		}
+		g := e.evalBool(env, c)
+		// a clause with a recorded finding is only proved outside the finding's
+		// class: callers may assume no more than that
+		if kf := e.L.Known.matchAny(display + "/post." + strings.TrimSuffix(c.Label, "!")); kf != nil {
+			if ex, err := parseExprCached(kf.Class); err == nil {
+				g = or(g, e.evalBool(env, Clause{Text: kf.Class, Expr: ex, File: "KNOWN_FINDINGS.txt"}))
+			}
+		}
+		e.assume(g)
 	}
 	for _, g := range con.Ghost {
 		tv := e.eval(env, g.Expr)
@@ -342,7 +358,7 @@ func (e *Enc) havocLoc(env *Env, loc string, con *Contract) {
 		}
 		s := e.asSl(env, e.eval(env, ex))
 		m := e.byteMem(e.cur)
-		e.setVar("M|byte", store(m, s.Arr, e.freshT("hvarr", SArr)))
+		e.setVarAt("M|byte", s.Arr, store(m, s.Arr, e.freshT("hvarr", SArr)))
 		return
 	}
 	if strings.HasPrefix(loc, "ghost_") {
@@ -482,7 +498,7 @@ func (e *Enc) copyBytes(dst, src Sl, n T) {
 	dstA := e.def("cpdst", sel(m, dst.Arr))
 	e.assume(T{fmt.Sprintf("(forall ((j (_ BitVec 64))) (! (= (select %s j) (ite (bvult (bvsub j %s) %s) (select %s (bvadd %s (bvsub j %s))) (select %s j))) :pattern ((select %s j))))",
 		na.S, dst.Off.S, n.S, srcA.S, src.Off.S, dst.Off.S, dstA.S, na.S), SBool})
-	e.setVar("M|byte", store(m, dst.Arr, na))
+	e.setVarAt("M|byte", dst.Arr, store(m, dst.Arr, na))
 }
 
 func constInt(t T) (uint64, bool) {
@@ -551,7 +567,8 @@ func (e *Enc) appendBuiltin(f *frame, c *ssa.CallCommon, args []Val, pos token.P
 		e.assume(T{fmt.Sprintf("(forall ((j (_ BitVec 64))) (! (=> (bvult j %s) (= (select %s j) (ite (bvult j %s) (select %s (bvadd %s j)) (select %s (bvadd %s (bvsub j %s)))))) :pattern ((select %s j))))",
 			newLen.S, realloc.S, s.Len.S, oldA.S, s.Off.S, srcA.S, t.Off.S, s.Len.S, realloc.S), SBool})
 	}
-	e.setVar("M|byte", store(store(m, s.Arr, inPlace), fresh, realloc))
+	e.setVarAt("M|byte", s.Arr, store(m, s.Arr, inPlace))
+	e.setVarAt("M|byte", fresh, store(e.byteMem(e.cur), fresh, realloc))
 	return e.nameVal(Sl{Arr: ite(fits, s.Arr, fresh), Off: ite(fits, s.Off, bv64(0)), Len: newLen, Cap: ite(fits, s.Cap, newCap), Elem: s.Elem}, "app")
 }
 
@@ -586,7 +603,10 @@ func (e *Enc) appendGeneric(s, t Sl) Val {
 		// in place: other indices of the old array unchanged
 		e.assume(implies(fits, T{fmt.Sprintf("(forall ((j (_ BitVec 64))) (! (=> (not (bvult (bvsub j (bvadd %s %s)) %s)) (= (select %s j) (select %s j))) :pattern ((select %s j))))",
 			s.Off.S, s.Len.S, t.Len.S, na.S, oldA.S, na.S), SBool}))
-		e.setVar(key, store(m, res.Arr, na))
+		e.setVarAt(key, s.Arr, store(m, res.Arr, na))
+		if e.writesV != nil {
+			e.writesIdx[key] = append(e.writesIdx[key], fresh)
+		}
 	}
 	return res
 }
@@ -645,7 +665,7 @@ func (e *Enc) intrinsic(f *frame, fn *ssa.Function, name string, args []Val, pos
 				}
 				a = store(a, add(s.Off, bv64(uint64(i))), byt)
 			}
-			e.setVar("M|byte", store(mem, s.Arr, a))
+			e.setVarAt("M|byte", s.Arr, store(mem, s.Arr, a))
 			return nil, true
 		}
 	}
@@ -756,4 +776,53 @@ func (e *Enc) bytesCompare(a, b Sl) T {
 	e.assume(eq(eq(r, bv64(0)), T{fmt.Sprintf("(= %s %s)", ia.S, ib.S), SBool}))
 	e.assume(eq(sle(r, bv64(0)), T{fmt.Sprintf("(lexle %s %s)", ia.S, ib.S), SBool}))
 	return r
+}
+
+
+// funcResult: result i of a deterministic pure function is an uninterpreted
+// function of the scalar leaves of its arguments.
+func (e *Enc) funcResult(con *Contract, display string, i int, rt types.Type, args []Val, sig *types.Signature, fn *ssa.Function) Val {
+	var leaves []T
+	var ptypes []types.Type
+	if fn != nil {
+		for _, p := range fn.Params {
+			ptypes = append(ptypes, p.Type())
+		}
+	}
+	for k, a := range args {
+		if k < len(ptypes) {
+			leaves = append(leaves, e.flatten(ptypes[k], a)...)
+		}
+	}
+	ls := leavesOf(rt)
+	if len(ls) != 1 {
+		return e.freshVal(rt, "fr")
+	}
+	name := "uf_" + sanitize(display) + fmt.Sprintf("_%d", i)
+	if e.ufDecls == nil {
+		e.ufDecls = map[string]string{}
+	}
+	var sorts []string
+	for _, l := range leaves {
+		sorts = append(sorts, l.Sort)
+	}
+	e.ufDecls[name] = fmt.Sprintf("(declare-fun %s (%s) %s)", name, strings.Join(sorts, " "), ls[0].Sort)
+	t := T{"(" + name, ls[0].Sort}
+	for _, l := range leaves {
+		t.S += " " + l.S
+	}
+	t.S += ")"
+	if len(leaves) == 0 {
+		t.S = name
+	}
+	seen := false
+	for _, in := range e.inputs {
+		if in.Expr == t.S {
+			seen = true
+		}
+	}
+	if !seen && e.loopDry == 0 {
+		e.inputs = append(e.inputs, InputVar{Name: "uf:" + display, Kind: "int", Bits: sortWidth(ls[0].Sort), Expr: t.S})
+	}
+	return e.rebuild(rt, func() T { return e.def("fr", t) })
 }
